@@ -4,7 +4,7 @@ set -u
 md="$(cd "$1" && pwd)"; shift
 wt="/tmp/seedtest.$$"
 git -C /repo worktree add --detach "$wt" HEAD -q || exit 2
-trap 'git -C /repo worktree remove --force "$wt" >/dev/null 2>&1' EXIT
+trap 'git -C /repo worktree remove --force "$wt" >/dev/null 2>&1; rm -f /verif/bin/*.alt."$(basename "$wt")"* /verif/bin/go._tmp_"$(basename "$wt")".*' EXIT
 # hooks are untracked in /repo until committed: copy them
 for f in $(git -C /repo ls-files --others --exclude-standard | grep 'verif_hooks.*\.go$'); do cp "/repo/$f" "$wt/$f"; done
 if ! git -C "$wt" apply "$md/patch.diff"; then echo "PATCH-DOES-NOT-APPLY $md"; exit 2; fi
